@@ -100,6 +100,23 @@ MUTATIONS = [
     ("tlexport/main.py", "        if len(packet_payload) < 6:", "        if len(packet_payload) < 5:", "handle_quic_packet: 5-byte long header read"),
     ("tlexport/output_builder.py", "        self.default_port = 8080", "        self.default_port = 8081", "OutputBuilder: fallback port"),
     ("tlexport/quic/quic_output_builder.py", "        if keep_original_ports is False:", "        if keep_original_ports is True:", "QUICOutputbuilder: flag inverted"),
+    # group QuicSess2: quic_session.py packet path
+    ("tlexport/quic/quic_session.py", '            self.set_largest_packet_number(quic_packet, packet_number)\n\n            frames = parse_frames(payload, quic_packet)\n', '            frames = parse_frames(payload, quic_packet)\n            self.set_largest_packet_number(quic_packet, packet_number)\n', 'decrypt_packet: largest packet number stored only after parse_frames'),
+    ("tlexport/quic/quic_session.py", '            packet_number = self.get_full_packet_number(quic_packet)\n', '            packet_number = self.get_full_packet_number(quic_packet)\n            self.set_largest_packet_number(quic_packet, packet_number)\n', 'decrypt_packet: largest packet number stored before the AEAD check'),
+    ("tlexport/quic/quic_session.py", '                    decryptor = self.decryptors["Application"][self.epoch_server]', '                    decryptor = self.decryptors["Application"][self.epoch_client]', 'decrypt_packet: server packets use the client epoch'),
+    ("tlexport/quic/quic_session.py", '                        decryptor = self.decryptors["Handshake"]', '                        decryptor = self.decryptors["Initial"]', 'decrypt_packet: Handshake packets use the Initial decryptor'),
+    ("tlexport/quic/quic_session.py", ' + quic_packet.token_len_bytes + quic_packet.token + ', ' + quic_packet.token_len_bytes + ', 'decrypt_packet: token missing from the Initial associated data'),
+    ("tlexport/quic/quic_session.py", 'associated_data = quic_packet.first_byte + quic_packet.dcid + quic_packet.packet_num', 'associated_data = quic_packet.first_byte + quic_packet.packet_num + quic_packet.dcid', 'decrypt_packet: short-header associated data in the wrong order'),
+    ("tlexport/quic/quic_session.py", '                if quic_packet.packet_type == QuicPacketType.RTT_1:\n                    self.check_key_epoch', '                if quic_packet.packet_type == QuicPacketType.RTT_O:\n                    self.check_key_epoch', 'decrypt_packet: key epoch never checked for 1-RTT'),
+    ("tlexport/quic/quic_session.py", '        except Exception as e:\n            print(e)', '        except KeyError as e:\n            print(e)', 'decrypt_packet: only KeyError swallowed'),
+    ("tlexport/quic/quic_session.py", '                if isserver:\n                    self.server_cids.add(frame.connection_id)', '                if not isserver:\n                    self.server_cids.add(frame.connection_id)', 'handle_frame: NEW_CONNECTION_ID credited to the wrong side'),
+    ("tlexport/quic/quic_session.py", '            case StreamFrame():\n                self.output_buffer.append(frame)', '            case StreamFrame():\n                pass', 'handle_frame: STREAM frames not exported'),
+    ("tlexport/quic/quic_session.py", '            if quic_packet.packet_type not in [QuicPacketType.RETRY, QuicPacketType.VERSION_NEG]:', '            if quic_packet.packet_type not in [QuicPacketType.RETRY]:', 'QuicSession.handle_quic_packet: Version Negotiation packets sent to decrypt_packet'),
+    ("tlexport/quic/quic_session.py", '                    self.server_cids.add(quic_packet.scid)\n                    self.client_cids.add(quic_packet.dcid)', '                    self.client_cids.add(quic_packet.scid)\n                    self.server_cids.add(quic_packet.dcid)', 'QuicSession.handle_quic_packet: CIDs of a server Initial swapped'),
+    ("tlexport/quic/quic_session.py", '                self.decryptors = {}\n                self.keys: dict[str, bytes] = {}\n\n                self.hash_fun = None', '                self.keys: dict[str, bytes] = {}\n\n                self.hash_fun = None', 'QuicSession.handle_quic_packet: decryptors kept across a Retry'),
+    ("tlexport/quic/quic_session.py", '            if self.tls_session.client_random is not None and self.tls_session.ciphersuite is not None:', '            if self.tls_session.client_random is not None or self.tls_session.ciphersuite is not None:', 'handle_crypto_frame: key derivation with one of client random / suite missing'),
+    ("tlexport/quic/quic_session.py", '            self.set_initial_decryptor(dcid, False)', '            self.set_initial_decryptor(dcid, True)', 'QuicSession.handle_packet: Initial keys derived for ChaCha20'),
+    ("tlexport/quic/quic_session.py", '        if self.quic_version == QuicVersion.UNKNOWN:\n            self.quic_version = quic_version', '        if self.quic_version != QuicVersion.UNKNOWN:\n            self.quic_version = quic_version', 'QuicSession.handle_packet: version latch inverted'),
     # group QuicTls: quic_tls_parser.py
     ("tlexport/quic/quic_tls_parser.py", "            if p_type == 0x2ab2:", "            if p_type == 0x2ab3:", "get_quic_transport_parameters: grease_quic_bit under the wrong id"),
     ("tlexport/quic/quic_tls_parser.py", "            extension_body = extension_body[index + parameter_length:]", "            extension_body = extension_body[index + parameter_length + 1:]", "get_quic_transport_parameters: a byte skipped after each parameter"),
@@ -197,6 +214,8 @@ MUTATIONS = [
 
 # behaviour-preserving rewrites: (file, [(old, new)…], what)
 REWRITES = [
+    ("tlexport/quic/quic_session.py", [('                if isserver:\n                    self.server_cids.add(frame.connection_id)\n                else:\n                    self.client_cids.add(frame.connection_id)', '                if not isserver:\n                    self.client_cids.add(frame.connection_id)\n                else:\n                    self.server_cids.add(frame.connection_id)')], 'handle_frame: NEW_CONNECTION_ID branches swapped under `not`'),
+    ("tlexport/quic/quic_session.py", [('                    case QuicPacketType.HANDSHAKE | QuicPacketType.RTT_O:', '                    case QuicPacketType.RTT_O | QuicPacketType.HANDSHAKE:')], 'decrypt_packet: `HANDSHAKE | RTT_O` written `RTT_O | HANDSHAKE`'),
     ("tlexport/quic/quic_dissector.py", [("                pn_offset = 1 + len(guessed_dcid)\n                sample_offset = pn_offset + 4\n                sample = datagram_data[sample_offset:sample_offset + 16]\n",
                                           "                pn_offset = len(guessed_dcid) + 1\n                sample = datagram_data[pn_offset + 4:pn_offset + 4 + 16]\n")],
      "extract_quic_packet: short-header sample offset inlined"),
@@ -266,6 +285,8 @@ def group_of(what):
     if fn in ("Dec.byte_xor", "get_cipher_type", "update_keys", "decrypt_tls13_aead", "decrypt_tls13_stream_cipher", "decrypt_tls12_aead",
               "decrypt_tls12_chacha20", "Decryptor.decrypt"):
         return ["Decrypt"]
+    if fn in ("decrypt_packet", "handle_frame", "QuicSession.handle_quic_packet", "handle_crypto_frame", "QuicSession.handle_packet"):
+        return ["QuicSess2"]
     if fn in ("get_quic_transport_parameters", "get_extensions", "handle_client_hello", "handle_server_hello", "handle_encrypted_extensions", "handle_record"):
         return ["QuicTls"]
     if fn in ("extract_server_frame", "extract_client_frame"):
